@@ -8,7 +8,7 @@ META = {
     "rule_text": "R10.1: for every function that (transitively) calls a CdnsEncoder write primitive and returns "
                  "size_t, each emitter call's result is used additively on the way to the return value and every "
                  "return yields the accumulator. R10.2: the primitives return exactly the bytes they store "
-                 "(imported from the encoder analysis). R10.3: single sink / who-may-call. A carrier assigned (=) into an accumulator that already holds counts is an overwrite; per return every carrier updated on a compatible path must be part of the value returned.",
+                 "(imported from the encoder analysis). R10.3: single sink / who-may-call. A carrier assigned (=) into an accumulator that already holds counts is an overwrite; per return every carrier updated on a compatible path must be part of the value returned. R10.2 shares R06.6's cursor-distance clause.",
     "explanation": "Dataflow over the structured AST: a discarded or overwritten count, or a return that is not the "
                    "accumulator, is reported at its call site. Holds for all histories because it is a per-path "
                    "property of each function; sums over API calls follow by induction on the call tree.",
